@@ -94,6 +94,8 @@ func secretScope(r *lib.Rand, base evalgen.Scope) (evalgen.Scope, *secrets, []st
 	s["sec_obj1"] = m(cty.ObjectVal(map[string]cty.Value{sc.str(): cty.NumberIntVal(1)}))
 	s["sec_map1"] = m(cty.MapVal(map[string]cty.Value{sc.str(): cty.True}))
 	s["sec_tuple1"] = m(cty.TupleVal([]cty.Value{sc.sv()}))
+	// a map with ordinary key names, marked as a whole only (attribute-style access by name)
+	s["sec_map2"] = m(cty.MapVal(map[string]cty.Value{"token": sc.sv(), "id": sc.sv()}))
 	s["sec_set"] = m(cty.SetVal([]cty.Value{sc.sv(), sc.sv()}))
 	s["sec_tuple"] = m(cty.TupleVal([]cty.Value{sc.sv(), sc.num(), cty.True}))
 	s["sec_objlist"] = m(cty.ListVal([]cty.Value{
@@ -162,6 +164,11 @@ func checkDiags(cx *lib.Ctx, diags hcl.Diagnostics, files map[string]*hcl.File, 
 		}
 		if t := leaked(d.Detail, sc); t != "" {
 			key := "leak:" + site(d.Summary) + "-detail"
+			if st := site(d.Summary); st == "incorrect-attribute-value-type" || st == "inconsistent-conditional-result-types" {
+				// type-mismatch messages: which part of the message holds the secret tells the recorded root
+				// cause (an attribute name of a marked object in a type description) from anything else
+				key += ":" + messageShape(d.Detail, sc)
+			}
 			if _, outer := markedIteration(d, files, t); scopeHoldsUnmarked(d.EvalContext, t) && outer {
 				// the secret reached this evaluation through a child-scope variable (for / dynamic-block
 				// iterator) that was bound without the marks of its collection: a different root cause
@@ -245,6 +252,7 @@ var families = []string{
 	`{for k in ["%{ for x in sec_map1 }${x}%{ endfor }", "%{ for k2, x in sec_map1 }${k2}%{ endfor }"] : "%{ for x in sec_tuple1 }${x}%{ endfor }" => k}`,
 	`[for o in ["%{ for x in sec_tuple1 }${x}%{ endfor }"] : o + 1]`, `[for o in ["%{ for x in sec_list }${x}%{ endfor }"] : o.zz]`,
 	`[for o in ["%{ for x in sec_tuple1 if x != "" }${x}%{ endfor }"] : o[0]]`,
+	`sec_map2.token + 1`, `sec_map2.token[0]`, `sec_map2.id.x`, `sec_map2["token"] + 1`, `[for o in [sec_map2.token] : o.zz]`, `sec_map2.token && true`,
 	`{for v in sec_dup : v => 1}`, `{for k, v in sec_dup : v => k}`, `{for v in sec_list : "same" => v}`, `{for k, v in sec_map : "same" => k}`,
 	`{for k, v in sec_map : sec_s => v}`, `{for v in sec_list_el : sec_s => v}`, `{for v in [1, 2] : sec_s => v}`, `{for v in [1, 2] : sec_ns => v}`, `{for v in [1, 2] : sec_n => v}`,
 	`{for v in sec_nlist : "${sec_n}" => v}`, `{for o in sec_objlist : sec_list[0] => o.name}`, `{for k, v in sec_obj : "x" => k}`,
@@ -394,6 +402,12 @@ var bodyFamilies = []struct {
 	{"a = sec_tuple\n", []evalgen.SpecItem{{Kind: "attr", Name: "a", Type: rawType(cty.List(cty.Number))}}},
 	{"a = sec_nested\n", []evalgen.SpecItem{{Kind: "attr", Name: "a", Type: rawType(cty.Object(map[string]cty.Type{"inner": cty.Number, "items": cty.List(cty.Bool)}))}}},
 	{"a = sec_null\n", []evalgen.SpecItem{{Kind: "attr", Name: "a", Type: rawType(cty.Number), Required: true}}},
+	// conversions that are possible for the type but fail on an element nested below an unmarked collection,
+	// the element's key being the secret
+	{"a = [{ (sec_s) = \"unlimited\" }]\n", []evalgen.SpecItem{{Kind: "attr", Name: "a", Type: rawType(cty.List(cty.Map(cty.Number)))}}},
+	{"a = [{ (sec_s) = \"unlimited\" }, { x = 1 }]\n", []evalgen.SpecItem{{Kind: "attr", Name: "a", Type: rawType(cty.List(cty.Map(cty.Number)))}}},
+	{"a = { outer = { (sec_s) = \"x\" } }\n", []evalgen.SpecItem{{Kind: "attr", Name: "a", Type: rawType(cty.Map(cty.Map(cty.Bool)))}}},
+	{"a = [[sec_s], [\"x\"]]\n", []evalgen.SpecItem{{Kind: "attr", Name: "a", Type: rawType(cty.List(cty.List(cty.Number)))}}},
 	{"vars {\n  k = sec_s\n  j = sec_list\n}\n", []evalgen.SpecItem{{Kind: "blockattrs", Name: "vars", Type: rawType(cty.Number)}}},
 	{"vars {\n  k = sec_obj\n}\n", []evalgen.SpecItem{{Kind: "blockattrs", Name: "vars", Type: rawType(cty.String)}}},
 }
@@ -617,6 +631,12 @@ func markedIteration(d *hcl.Diagnostic, files map[string]*hcl.File, t string) (o
 	if f == nil {
 		return false, false
 	}
+	if strings.HasSuffix(d.Subject.Filename, ".json") {
+		// the template lives inside a JSON string: its for directives cannot be located by range in the
+		// file; any child scope above the diagnostic is taken to be an iteration (the attribution used
+		// before the finer analysis existed)
+		return false, d.EvalContext.Parent() != nil
+	}
 	var fors []*hclsyntax.ForExpr
 	collect := func(n hclsyntax.Node) {
 		_ = hclsyntax.VisitAll(n, func(x hclsyntax.Node) hcl.Diagnostics {
@@ -643,7 +663,9 @@ func markedIteration(d *hcl.Diagnostic, files map[string]*hcl.File, t string) (o
 		marked := false
 		for c := d.EvalContext; c != nil; c = c.Parent() {
 			v, diags, p := evalgen.SafeValue(fe.CollExpr, c)
-			if p == "" && !diags.HasErrors() && v.IsMarked() {
+			// (errors do not stop the iteration: a for expression whose collection reported, say, a duplicate
+			// key still iterates over what was built)
+			if _ = diags; p == "" && v.IsMarked() {
 				marked = true
 				break
 			}
@@ -660,6 +682,24 @@ func markedIteration(d *hcl.Diagnostic, files map[string]*hcl.File, t string) (o
 	return own, outer
 }
 
+var shapeQuoted = regexp.MustCompile(`"(?:[^"\\]|\\.)*"`)
+var shapeDigits = regexp.MustCompile(`[0-9]+`)
+
+// messageShape abstracts a message: secrets become S, other quoted texts Q, digit runs N.
+func messageShape(text string, sc []string) string {
+	for _, t := range sc {
+		text = strings.ReplaceAll(text, `"`+t+`"`, "S")
+		text = strings.ReplaceAll(text, t, "S")
+	}
+	text = shapeQuoted.ReplaceAllString(text, "Q")
+	text = shapeDigits.ReplaceAllString(text, "N")
+	text = strings.Join(strings.Fields(text), "_")
+	if len(text) > 240 {
+		text = text[:240]
+	}
+	return text
+}
+
 // scopeHoldsUnmarked reports whether some variable of the diagnostic's evaluation context (or a parent)
 // holds the text t in a part that carries no mark.
 func scopeHoldsUnmarked(ctx *hcl.EvalContext, t string) bool {
@@ -672,6 +712,9 @@ func scopeHoldsUnmarked(ctx *hcl.EvalContext, t string) bool {
 		switch {
 		case ty == cty.String:
 			return strings.Contains(v.AsString(), t)
+		case ty == cty.Number:
+			// a secret number shows up as its decimal digits
+			return strings.Contains(v.AsBigFloat().Text('f', -1), t)
 		case ty.IsCollectionType() || ty.IsTupleType() || ty.IsObjectType():
 			for it := v.ElementIterator(); it.Next(); {
 				k, ev := it.Element()
